@@ -800,7 +800,11 @@ impl Calendar {
                             } else {
                                 YearKind::Common
                             }
-                        } else if Month::February.lt(gap.pre_reform.month)
+                        } else if (Month::February.lt(gap.pre_reform.month)
+                            || matches!(
+                                (gap.pre_reform.month, gap.pre_reform.day),
+                                (Month::February, 29)
+                            ))
                             && inner::is_julian_leap_year(year)
                         {
                             YearKind::ReformLeap
@@ -810,7 +814,11 @@ impl Calendar {
                     }
                     Between => YearKind::Skipped,
                     EqBoth => {
-                        if (Month::February.lt(gap.pre_reform.month)
+                        if ((Month::February.lt(gap.pre_reform.month)
+                            || matches!(
+                                (gap.pre_reform.month, gap.pre_reform.day),
+                                (Month::February, 29)
+                            ))
                             && inner::is_julian_leap_year(year))
                             || (gap.post_reform.month.le(Month::February)
                                 && inner::is_gregorian_leap_year(year))
